@@ -29,6 +29,12 @@ def boxes(c):
     src = GeoBox((c["hs"], c["ws"]), Affine(den, 0, 0, 0, den, 0), CRS)
     A = c["A"]
     dst = GeoBox((c["hd"], c["wd"]), Affine(*[float(v) for v in A]), CRS)   # D * (A / D)
+    if c.get("xcrs"):
+        # the same numbers under two different custom CRSs (spec/warp/ReprojGen.tla XCrsCases): fresh CRS objects each time
+        from .drivers.c16 import CRS_A, CRS_B
+        from odc.geo.crs import CRS as OCRS
+        src = GeoBox(src.shape, src.affine, OCRS(CRS_A))
+        dst = GeoBox(dst.shape, dst.affine, OCRS(CRS_B))
     return src, dst
 
 
